@@ -173,6 +173,10 @@ def batch_files(max_n, lo, hi, seed):
                 names[pos] = w
                 if run([shape, [(1, 2), (1, 1)], names, 3]):
                     return res
+        for names in rt.confusable_cases(4):
+            for cards, code in (([(1, 2), (1, 1)], 1), ([(2, 2), (1, 1)], 3)):
+                if run([shape, cards, names, code]):
+                    return res
     return res
 
 
